@@ -24,7 +24,7 @@ from operon_ai.state.histone import HistoneStore
 ID = "C13"
 LEVEL = "exploration"
 ENGINE = "seq+threads"
-RUNS = {"quick": 30_000, "thorough": 1_200_000}
+RUNS = {"quick": 60_000, "thorough": 1_200_000}
 RULE = ("seeded plans in two families: (seq) histories of <=10 (quick) / <=16 (thorough) operations over {ingest of each "
         "waste type, ingest_error, ingest_sensitive, digest(k), autophagy, daemon check_and_prune, clock moves around the "
         "retention period} with per-item digester / toxic-callback faults; (threads) 2 tasks x 1-3 of the same operations "
